@@ -17,7 +17,7 @@ from typing import Any
 VERIF_DIR = os.path.dirname(os.path.dirname(os.path.abspath(__file__)))
 EVIDENCE_DIR = os.path.join(VERIF_DIR, "evidence")
 REPLAY_DIR = os.path.join(VERIF_DIR, "replays")
-FINDINGS_FILE = os.path.join(VERIF_DIR, "known_findings.json")
+FINDINGS_FILE = os.path.join(VERIF_DIR, "KNOWN_FINDINGS.txt")
 
 CHECKS = ("C13", "C14", "C15", "C17")
 LEVEL = {"C13": "exploration", "C14": "fault_enumeration", "C15": "exploration", "C17": "exploration"}
@@ -154,12 +154,36 @@ def shrink_text_lines(text: str, test: Callable[[str], bool], budget: list[int])
 
 
 def load_findings() -> list[dict[str, Any]]:
+    """Parse KNOWN_FINDINGS.txt (see the header of that file for the line format)."""
+    out: list[dict[str, Any]] = []
     try:
-        with open(FINDINGS_FILE) as f:
-            data = json.load(f)
+        with open(FINDINGS_FILE, encoding="utf-8") as f:
+            lines = f.read().splitlines()
     except FileNotFoundError:
-        return []
-    return list(data.get("findings", []))
+        return out
+    for ln in lines:
+        ln = ln.strip()
+        if not ln or ln.startswith("#"):
+            continue
+        status, _, rest = ln.partition(":")
+        status = status.strip()
+        if status not in ("finding", "fixed"):
+            continue
+        words = rest.split()
+        ent: dict[str, Any] = {"status": status, "line": ln}
+        free: list[str] = []
+        for w_ in words:
+            if w_.startswith("property=") and "property" not in ent:
+                ent["property"] = w_[len("property=") :]
+            elif w_.startswith("fingerprint=") and "fingerprint" not in ent:
+                ent["fingerprint"] = w_[len("fingerprint=") :]
+            else:
+                free.append(w_)
+        if status == "fixed" and free:
+            ent["commit"] = free.pop(0)
+        ent["what"] = " ".join(free)
+        out.append(ent)
+    return out
 
 
 def finding_for(check: str, fingerprint: str) -> dict[str, Any] | None:
